@@ -244,30 +244,28 @@ func checkC19(c *Ctx) {
 				ok2 := false
 				if ld, ok := sd.X.(*ssa.UnOp); ok && ld.Op == token.MUL {
 					if ia, ok := ld.X.(*ssa.IndexAddr); ok {
-						if phi, ok := ia.Index.(*ssa.Phi); ok && len(phi.Edges) == 2 {
-							// i := 0; i < n; i++
-							zero, inc := false, false
-							for _, e := range phi.Edges {
-								if k, ok := constInt(e); ok && k == 0 {
-									zero = true
+						if bound, ok := countingLoopIndex(ia.Index); ok {
+							// the bytes are data[0..n) where n is the count of the Read into data:
+							// either data[i], i<n, or s[i], i<len(s) with s = data[:n]
+							isReadCount := func(v ssa.Value, buf ssa.Value) bool {
+								ex, ok := v.(*ssa.Extract)
+								if !ok || ex.Index != 0 {
+									return false
 								}
-								if b, ok := e.(*ssa.BinOp); ok && b.Op == token.ADD && b.X == ssa.Value(phi) {
-									if k, ok := constInt(b.Y); ok && k == 1 {
-										inc = true
+								call, ok := ex.Tuple.(*ssa.Call)
+								return ok && call.Call.IsInvoke() && call.Call.Method.Name() == "Read" && root(call.Call.Args[0]) == root(buf)
+							}
+							if isReadCount(bound, ia.X) {
+								if sl, isSl := trivialPhi(ia.X).(*ssa.Slice); !isSl || (sl.Low == nil && (sl.High == nil || sl.Max == nil)) {
+									ok2 = true
+								}
+							} else if lc, ok := bound.(*ssa.Call); ok {
+								if bi, ok := lc.Call.Value.(*ssa.Builtin); ok && bi.Name() == "len" && trivialPhi(lc.Call.Args[0]) == trivialPhi(ia.X) {
+									if sl, ok := trivialPhi(ia.X).(*ssa.Slice); ok && sl.Low == nil && sl.High != nil && isReadCount(sl.High, sl.X) {
+										ok2 = true
 									}
 								}
 							}
-							bound := false
-							if ifi, ok := lastInstr(phi.Block()).(*ssa.If); ok {
-								if cmp, ok := ifi.Cond.(*ssa.BinOp); ok && cmp.Op == token.LSS && cmp.X == ssa.Value(phi) {
-									if ex, ok := cmp.Y.(*ssa.Extract); ok && ex.Index == 0 {
-										if call, ok := ex.Tuple.(*ssa.Call); ok && call.Call.IsInvoke() && call.Call.Method.Name() == "Read" {
-											bound = root(call.Call.Args[0]) == root(ia.X)
-										}
-									}
-								}
-							}
-							ok2 = zero && inc && bound
 						}
 					}
 				}
@@ -419,4 +417,63 @@ func checkEscaping(c *Ctx, status, sanit *ssa.Function) {
 			c.OK("C19-R3", "page-is-escaped", r.Pos(), "every traffic-derived string on the page passed the escape helper")
 		}
 	}
+}
+
+// countingLoopIndex recognises the index of an in-order loop over 0..bound-1:
+// either `for i := 0; i < bound; i++` (index = phi[0, phi+1], header tests
+// phi < bound) or the lowering of `for i := range s` (index = phi[-1, index]+1,
+// tested index < bound in its own block).
+func countingLoopIndex(idx ssa.Value) (bound ssa.Value, ok bool) {
+	lssBound := func(b *ssa.BasicBlock, x ssa.Value) ssa.Value {
+		ifi, ok := lastInstr(b).(*ssa.If)
+		if !ok {
+			return nil
+		}
+		cmp, ok := ifi.Cond.(*ssa.BinOp)
+		if !ok || cmp.Op != token.LSS || cmp.X != x {
+			return nil
+		}
+		return cmp.Y
+	}
+	if phi, ok := idx.(*ssa.Phi); ok && len(phi.Edges) == 2 {
+		zero, inc := false, false
+		for _, e := range phi.Edges {
+			if k, ok := constInt(e); ok && k == 0 {
+				zero = true
+			}
+			if b, ok := e.(*ssa.BinOp); ok && b.Op == token.ADD && b.X == ssa.Value(phi) {
+				if k, ok := constInt(b.Y); ok && k == 1 {
+					inc = true
+				}
+			}
+		}
+		if zero && inc {
+			if bd := lssBound(phi.Block(), phi); bd != nil {
+				return bd, true
+			}
+		}
+		return nil, false
+	}
+	if add, ok := idx.(*ssa.BinOp); ok && add.Op == token.ADD {
+		phi, isPhi := add.X.(*ssa.Phi)
+		k, isC := constInt(add.Y)
+		if !isPhi || !isC || k != 1 || len(phi.Edges) != 2 || phi.Block() != add.Block() {
+			return nil, false
+		}
+		m1, back := false, false
+		for _, e := range phi.Edges {
+			if k, ok := constInt(e); ok && k == -1 {
+				m1 = true
+			}
+			if e == ssa.Value(add) {
+				back = true
+			}
+		}
+		if m1 && back {
+			if bd := lssBound(add.Block(), add); bd != nil {
+				return bd, true
+			}
+		}
+	}
+	return nil, false
 }
